@@ -19,4 +19,5 @@ u32 envf_write_seq(u8 *f, u32 k);            /* global sequence number of that w
 u32 envf_nreads(u8 *f);
 u32 envf_first_read_seq(u8 *f);
 u32 envf_closed(u8 *f);
+void envf_seek(u8 *f, u64 pos);
 #endif
